@@ -12,8 +12,6 @@ for l in lines:
     key = "%s-m%s" % (m.group(1), m.group(2))
     res.setdefault(key, {})[m.group(3)] = {"quick_exit": int(m.group(4)), "violations_reported": int(m.group(5)), "first_violation": m.group(6)[:400]}
 outside = {
-    "C08-m2": "the change is in the HTML tree builder (drop_doctype); C08 is claimed for the tokenizer options only",
-    "C19-m2": "the change is in rules.rs (when the indicator fires); C19 is claimed for the extractor (part a) only",
     "C12-m2": "the change only affects the WTF8 format; C11/C12 harnesses instantiate Bytes and UTF8 only (stated bound)",
     "C11-m1": "needs push_tendril between two distinct heap buffers; that harness exhausts CBMC's memory (37 M variables) and is not in the registered list",
 }
